@@ -3,6 +3,9 @@
   Theorems only (helper lemmas are local and small).  Model: `Model/StreamReader.lean`.
 -/
 import FlacModel.Model.StreamReader
+import FlacModel.Proofs.Local
+import FlacModel.Proofs.Sync
+import FlacModel.Props.C01b
 
 namespace Flac.C16
 open Flac
@@ -121,5 +124,185 @@ theorem no_sync_no_loss_partial (p : Profile) (fuel : Nat) (g : List Nat) (b : N
 example : (match decodeFrame .release none [255, 248, 105, 8, 0, 0, 29, 0, 0, 0, 160, 39] with
     | .ok d => d.used == 12 && d.channels == [[0]] | .error _ => false) = true := by
   decide +kernel
+
+/-! ### No loss, in full: garbage without the sync pattern costs no frame
+
+`noSync g`: no `0xFF` in `g` is followed (inside `g`) by `F8|F9`.  A trailing `0xFF` is allowed - the
+byte after it is the frame's own `0xFF`, which is not `F8|F9`. -/
+
+def noSync : List Nat → Bool
+  | a :: b :: r => !(a == 255 && b / 2 == 124) && noSync (b :: r)
+  | _ => true
+
+theorem read_skip_nonFF (p : Profile) (fuel : Nat) (a : Nat) (x : List Nat) (ha : a ≠ 255) :
+    streamReadOne p (fuel + 1) (a :: x) = streamReadOne p (fuel + 1) x := by
+  have : (a == 255) = false := by simpa using ha
+  simp only [streamReadOne, skipUntilFF, this]
+  rfl
+
+theorem read_skip_lone_ff (p : Profile) (fuel : Nat) (y : Nat) (z : List Nat) (hy : y / 2 ≠ 124) :
+    streamReadOne p (fuel + 1) (255 :: y :: z) = streamReadOne p fuel (y :: z) := by
+  simp [streamReadOne, skipUntilFF, hy]
+
+/-- a frame that decodes on its own (from its header alone: no STREAMINFO) using all of its bytes -/
+structure Standalone (p : Profile) (f : List Nat) (d : Decoded) : Prop where
+  bytes : ∀ x ∈ f, x < 256
+  decodes : decodeFrame p none f = .ok d
+  used : d.used = f.length
+
+/-- **No loss.**  Garbage that does not contain the sync pattern - it may contain `0xFF` bytes, even as
+    its last byte - costs no frame: one `read()` over `garbage ++ frame ++ anything` returns exactly
+    that frame, decoded as it decodes on its own, and leaves exactly `anything`. -/
+theorem no_sync_no_loss (p : Profile) (g f rest : List Nat) (d : Decoded) (hg : noSync g = true)
+    (hf : Standalone p f d) (fuel : Nat) (hfuel : g.length < fuel) :
+    streamReadOne p fuel (g ++ f ++ rest) = (.frame d, rest) := by
+  obtain ⟨b, t, hshape, hb⟩ := decodeFrame_sync p none f hf.bytes d hf.decodes
+  have hd : decodeFrame p none (255 :: b :: (t ++ rest)) = .ok d := by
+    have := decodeFrame_ext p none f d hf.decodes rest
+    rwa [hshape] at this
+  have hu : d.used = t.length + 2 := by rw [hf.used, hshape]; simp
+  have e : g ++ f ++ rest = g ++ 255 :: b :: (t ++ rest) := by rw [hshape]; simp
+  rw [e]
+  clear e hshape
+  induction g generalizing fuel with
+  | nil =>
+    cases fuel with
+    | zero => simp at hfuel
+    | succ k => exact no_sync_no_loss_partial p k [] b t rest d (by simp) hb hd hu
+  | cons a g ih =>
+    cases fuel with
+    | zero => simp at hfuel
+    | succ k =>
+      have hk : g.length < k := by simp at hfuel; omega
+      have hg' : noSync g = true := by
+        cases g with
+        | nil => simp [noSync]
+        | cons c g' => simp only [noSync, Bool.and_eq_true] at hg; exact hg.2
+      by_cases ha : a = 255
+      · subst ha
+        cases g with
+        | nil =>
+          rw [List.cons_append, List.nil_append, read_skip_lone_ff p k 255 _ (by decide)]
+          exact ih hg' k hk
+        | cons c g' =>
+          have hc : c / 2 ≠ 124 := by
+            simp only [noSync, Bool.and_eq_true, Bool.not_eq_true', Bool.and_eq_false_iff] at hg
+            rcases hg.1 with h | h
+            · simp at h
+            · simpa using h
+          rw [List.cons_append, List.cons_append, read_skip_lone_ff p k c _ hc]
+          exact ih hg' k hk
+      · rw [List.cons_append, read_skip_nonFF p k a _ ha]
+        exact ih hg' (k + 1) (by omega)
+
+/-- scanning bytes without the sync pattern and with nothing behind them ends the stream -/
+theorem tail_noSync_eof (p : Profile) (g : List Nat) (hg : noSync g = true) (fuel : Nat) (hfuel : g.length < fuel) :
+    ∃ r, streamReadOne p fuel g = (.fail .eof, r) := by
+  induction g generalizing fuel with
+  | nil =>
+    cases fuel with
+    | zero => simp at hfuel
+    | succ k => exact ⟨[], by simp [streamReadOne, skipUntilFF]⟩
+  | cons a g ih =>
+    cases fuel with
+    | zero => simp at hfuel
+    | succ k =>
+      have hk : g.length < k := by simp at hfuel; omega
+      have hg' : noSync g = true := by
+        cases g with
+        | nil => simp [noSync]
+        | cons c g' => simp only [noSync, Bool.and_eq_true] at hg; exact hg.2
+      by_cases ha : a = 255
+      · subst ha
+        cases g with
+        | nil => exact ⟨[], by simp [streamReadOne, skipUntilFF]⟩
+        | cons c g' =>
+          have hc : c / 2 ≠ 124 := by
+            simp only [noSync, Bool.and_eq_true, Bool.not_eq_true', Bool.and_eq_false_iff] at hg
+            rcases hg.1 with h | h
+            · simp at h
+            · simpa using h
+          rw [read_skip_lone_ff p k c _ hc]
+          exact ih hg' k hk
+      · rw [read_skip_nonFF p k a _ ha]
+        exact ih hg' (k + 1) (by omega)
+
+/-- the byte stream: before each frame some bytes without the sync pattern -/
+def wire : List (List Nat × List Nat × Decoded) → List Nat
+  | [] => []
+  | (g, f, _) :: r => g ++ f ++ wire r
+
+/-- **Every written frame comes back, in order, exactly.**  A sequence of standalone frames - each with its
+    own parameters: nothing relates one `Decoded` to the next - with sync-free bytes before, between and
+    after them is read back by repeated `read()` as exactly those frames, in order, then end of stream. -/
+theorem clean_stream_reads_all (p : Profile) (items : List (List Nat × List Nat × Decoded)) (tail : List Nat)
+    (h : ∀ it ∈ items, noSync it.1 = true ∧ Standalone p it.2.1 it.2.2)
+    (ht : noSync tail = true) (limit : Nat) (hl : items.length < limit) :
+    streamReadAll p limit (wire items ++ tail) = items.map (fun it => ReadResult.frame it.2.2) ++ [.fail .eof] := by
+  induction items generalizing limit with
+  | nil =>
+    cases limit with
+    | zero => simp at hl
+    | succ k =>
+      obtain ⟨r, hr⟩ := tail_noSync_eof p tail ht (tail.length + 1) (by omega)
+      simp only [wire, List.nil_append, streamReadAll, hr, List.map_nil]
+  | cons it items ih =>
+    obtain ⟨g, f, d⟩ := it
+    cases limit with
+    | zero => simp at hl
+    | succ k =>
+      have h0 := h (g, f, d) (by simp)
+      have e : wire ((g, f, d) :: items) ++ tail = g ++ f ++ (wire items ++ tail) := by simp [wire]
+      have hr := no_sync_no_loss p g f (wire items ++ tail) d h0.1 h0.2 ((g ++ f ++ (wire items ++ tail)).length + 1)
+        (by simp only [List.length_append]; omega)
+      rw [e]
+      simp only [streamReadAll, hr, List.map_cons, List.cons_append]
+      congr 1
+      exact ih (fun it hit => h it (by simp [hit])) k (by simp at hl; omega)
+
+/-- non-vacuity of `Standalone` and `noSync`: the one-sample frame below, behind garbage ending in a lone `0xFF` -/
+example : noSync [1, 255, 3, 255] = true ∧ (∀ x ∈ [255, 248, 105, 8, 0, 0, 29, 0, 0, 0, 160, 39], x < 256) := by
+  decide
+
+/-! ### written frames are self-describing -/
+
+/-- **Every frame that can be written without reference to STREAMINFO decodes from its own header alone**:
+    a frame that is well-formed with no STREAMINFO context (`FrameWf none`: no header code refers to it - what
+    `FrameHeader::write_subset` enforces) is `Standalone`: the bytes decode, with `si = none`, to its header and
+    samples, using all of them. -/
+theorem written_frame_standalone (p : Profile) (f : Frame) (xss out : List (List Int)) (w : FrameWf none f)
+    (hx : subsDecode p f.hdr.assign f.hdr.blockSize f.hdr.bps f.subs xss 0)
+    (hr : recorrelate p f.hdr.assign f.hdr.bps xss = .ok out) :
+    Standalone p f.serialize { hdr := f.hdr, channels := out, used := f.serialize.length } :=
+  { bytes := serialize_bytes_lt f
+    decodes := Flac.C01.frame_roundtrip p none f xss out w hx hr
+    used := rfl }
+
+/-- **A clean concatenation reads back frame by frame, whatever changes between frames.**  Any sequence of
+    well-formed frames - each with its own rate, channel assignment, depth and length: the hypotheses relate
+    nothing across frames - with bytes free of the sync pattern before, between and after them, is returned by
+    repeated `read()` as exactly those frames' headers and samples, in order, followed by end of stream. -/
+theorem written_stream_reads_back (p : Profile)
+    (items : List (List Nat × Frame × List (List Int) × List (List Int))) (tail : List Nat)
+    (h : ∀ it ∈ items, noSync it.1 = true ∧ FrameWf none it.2.1
+      ∧ subsDecode p it.2.1.hdr.assign it.2.1.hdr.blockSize it.2.1.hdr.bps it.2.1.subs it.2.2.1 0
+      ∧ recorrelate p it.2.1.hdr.assign it.2.1.hdr.bps it.2.2.1 = .ok it.2.2.2)
+    (ht : noSync tail = true) (limit : Nat) (hl : items.length < limit) :
+    streamReadAll p limit
+        (wire (items.map fun it => (it.1, it.2.1.serialize,
+          ({ hdr := it.2.1.hdr, channels := it.2.2.2, used := it.2.1.serialize.length } : Decoded))) ++ tail)
+      = items.map (fun it => ReadResult.frame { hdr := it.2.1.hdr, channels := it.2.2.2, used := it.2.1.serialize.length })
+          ++ [.fail .eof] := by
+  have := clean_stream_reads_all p
+    (items.map fun it => (it.1, it.2.1.serialize,
+      ({ hdr := it.2.1.hdr, channels := it.2.2.2, used := it.2.1.serialize.length } : Decoded))) tail
+    (by
+      intro it hit
+      obtain ⟨src, hsrc, rfl⟩ := List.mem_map.mp hit
+      obtain ⟨h1, h2, h3, h4⟩ := h src hsrc
+      exact ⟨h1, written_frame_standalone p src.2.1 src.2.2.1 src.2.2.2 h2 h3 h4⟩)
+    ht limit (by simpa using hl)
+  rw [this, List.map_map]
+  rfl
 
 end Flac.C16
